@@ -120,7 +120,9 @@ def gen_history(r, proj: dict, n_ops: int) -> list:
         a, b = r.sample(code_files(), 2)
         hist += [[r.choice(["LintFile", "ApiFile"]), a], ["LintFiles", [b]]]
     elif 0.42 <= templates < 0.5 and flip_candidates():   # an inline suppression comment of a duplicated body is removed / added between two runs
-        p, k = r.choice(flip_candidates())
+        fc = flip_candidates()
+        rem = [(p, k) for p, k in fc if proj["contents"][fs[p]][1][k][0] != "B"]     # removal of a comment: twice as likely as addition
+        p, k = r.choice(rem if rem and r.random() < 0.67 else fc)
         items = [list(x) for x in proj["contents"][fs[p]][1]]
         items[k][0] = "B" if items[k][0] != "B" else r.choice(["BI", "BN"])
         proj["contents"].append([paths[p], items])
